@@ -108,10 +108,10 @@ CHECKS["C14"] = ("widemon+fsmmon",
     "runtime monitoring: exhaustive enumeration over (N, k) with exact callback-sequence and object-identity comparison")
 CHECKS["C12"] = ("fsmmon+widemon",) + CHECKS["C12"][1:]
 CHECKS["C12"] = (CHECKS["C12"][0], CHECKS["C12"][1].replace("(All pairs for larger N: see C14's engine once built.)",
-    "widemon adds every (saver activity, loader activity) pair incl. inactive for the sampled sizes (all pairs for N <= 33 in quick, for every N in 1..255 in thorough)."),
+    "widemon adds every (saver activity, loader activity) pair incl. inactive for the sampled sizes (all pairs for N <= 33 in quick, for every N in 1..255 in thorough), for manually and for automatically activated machines."),
     CHECKS["C12"][2], "runtime monitoring: online trace monitors on random histories + exhaustive enumeration of (saver, loader) pairs per machine size")
 ENGINES.append({"name": "widemon", "path": "harness/widemon.cpp, vlib/wide.py", "serves_properties": ["C14", "C12", "C13", "C18"], "kind_free_text": "one generated machine per state count 1..255"})
-ENGINES.append({"name": "wideplan", "path": "harness/wideplan.cpp, vlib/wide.py", "serves_properties": ["C08", "C09", "C10"], "kind_free_text": "plans on machines of 4..255 states, every state as origin, capacities below/above the state count"})
+ENGINES.append({"name": "wideplan", "path": "harness/wideplan.cpp, vlib/wide.py", "serves_properties": ["C08", "C09", "C10", "C17", "C18"], "kind_free_text": "plans on machines of 4..255 states, every state as origin, capacities below/above the state count"})
 ENGINES.append({"name": "cfgorder", "path": "harness/cfgorder.cpp, harness/cfg_orders.inc", "serves_properties": ["C01", "C04", "C06", "C07", "C10"], "kind_free_text": "the five configuration aliases chained in all 120 orders"})
 ENGINES.append({"name": "fsmmon", "path": "harness/fsmmon.cpp (+fsm_*.hpp), vlib/fsm.py", "serves_properties": ["C01","C02","C03","C04","C05","C06","C07","C08","C09","C10","C11","C12","C14","C15","C16","C17","C18"],
                 "kind_free_text": "instrumented machine configurations driven by seeded/enumerated histories with online trace monitors"})
